@@ -1242,7 +1242,7 @@ func writeTree(root string, truths []fileTruth, extras []ExtraFile) {
 		case "gitignore":
 			// none of these patterns matches a file of the tree (the tree lies in a directory
 			// named proj; patterns are relative to the directory of the .gitignore)
-			files[e.Rel] = "# build output\ntarget/\n*.class\n/proj/\nproj/\n/tmp/\n*Test.jav\n!*.keep\n"
+			files[e.Rel] = "# build output\nbuildout/\n*.class\n/proj/\nproj/\n/scratch/\n*Test.jav\n!*.keep\n"
 		case "pkginfo":
 			i := strings.Index(e.Rel, "src/test/java/")
 			if i < 0 || !strings.HasSuffix(e.Rel, "/package-info.java") {
@@ -2495,11 +2495,19 @@ func genFile(t *rapid.T, c *Case, role string, idx int, used map[string]bool) Fi
 		if rare(t, "defaultPackage", 9) {
 			f.Package = "" // directly in src/test/java (src/main/java)
 		}
+		if rare(t, "toolDirPackage", 7) {
+			// seventh seed batch: a package segment named like a directory that build tools, IDEs and package
+			// managers make; below src/test/java it is a package like any other
+			f.Package = "com.acme." + rapid.SampledFrom([]string{"build", "target", "out", "bin", "dist", "generated", "vendor", "node_modules", "tmp", "classes", "gen"}).Draw(t, "toolDirPackageName") + rapid.SampledFrom([]string{"", ".queue", ".api"}).Draw(t, "toolDirPackageTail")
+		}
 		if twin {
 			f.Package = "com.acme.other"
 		}
 	} else {
 		f.SubDir = rapid.SampledFrom([]string{"", "", "tests", "unit/core"}).Draw(t, "subDir")
+		if rare(t, "toolSubDir", 9) {
+			f.SubDir = rapid.SampledFrom([]string{"build", "target/it", "out", "bin", "dist", "generated", "vendor/acme"}).Draw(t, "toolSubDirName")
+		}
 		if rare(t, "oddSubDir", 6) {
 			// near misses of the tool's testData rule, a blank, a non-ASCII letter
 			f.SubDir = rapid.SampledFrom([]string{"testdata", "it/TestData", "unit tests", "ünit", "test-data"}).Draw(t, "oddSubDirName")
